@@ -1021,19 +1021,49 @@ def rule_transparent_groups(ctx):
             continue
         env = A.ArmEnv(); env.strip = True; env.bind_params(h); env.absorb(h["body"])
         for node in H.walk(h["body"]):
-            if H.kind(node) == "MethodCall" and node["name"] in ("term_payload", "pattern_payload"):
+            if H.kind(node) == "MethodCall" and node["name"] in ("term_payload", "pattern_payload", "term_payload_through", "pattern_payload_through"):
                 n += 1
                 arg = A.sexpr(node["args"][1], env)
                 helper = re.match(r"^\(%stransparent_\w+_group \$P0 " % re.escape(FORMATTER), arg) is not None
+                if node["name"].endswith("_through") and len(node["args"]) >= 3:
+                    # the recogniser applies the passed function to the payload AND to an annotated variable (F66): it has to be
+                    # the printer's own elision
+                    thr = A.sexpr(node["args"][2], env)
+                    helper = re.match(r"^\(closure \(%stransparent_\w+_group \$P0 \$c\d+\.0\)\)$" % re.escape(FORMATTER), thr) is not None
+                    arg = thr
                 # the printers of a written `field = payload` print the payload through the parenthesis-eliding printer: they
                 # must pun against what that printer will show (F52: `(field = (field))` was punned only by the second run)
-                strict = p.split("::")[-1] in ("named_term", "named_pattern", "projection_pattern")
+                strict = p.split("::")[-1] in ("named_term", "named_pattern", "projection_pattern", "manifest_parameter")
+                if strict and not node["name"].endswith("_through"):
+                    helper = False      # only the `_through` recogniser applies the elision to an annotated variable too (F66)
                 ok = helper or (not strict and (re.match(r"^\$P\d+$", arg) is not None or re.search(r"/\w+\.\w+$|^\(\. ", arg) is not None))
                 ctx.check(ok, rule, "%s:%s" % (p.split("::")[-1], node["name"]), "%s asks the pun recogniser about %s%s" % (p.split("::")[-1], arg[:100],
                           ": the written payload, not the payload seen through the singleton groups the printer elides; `(field = (field))` "
                           "prints as `(field = field)` and only the next run puns it" if strict else ""),
                           [bd["loc"][0], node.get("ln")], detail={"fn": p.split("::")[-1], "payload": arg[:60]})
     ctx.floor(rule, "pun recognition sites", n, 3)
+    # the recogniser applies the passed elision to the payload and to the variable of an annotated payload
+    for short in ("term_payload_through", "pattern_payload_through"):
+        p = PRETTY + "punning::Punning::<'arena>::" + short
+        h = facts.hir(p)
+        if h is None:
+            ctx.anchor_lost(rule, p + " not found")
+            continue
+        # calls of the function parameter (the last parameter, an `impl Fn(Id) -> Id`)
+        applied = [c for c in H.walk(h["body"]) if H.kind(c) == "Call" and H.kind(c.get("f") or {}) == "Path"
+                   and "impl Fn(" in ((c.get("f") or {}).get("ty") or "")]
+        # one of them is applied to the variable bound by the `Ann { tm, .. }` pattern of the payload
+        ann_locals = set()
+        for m in H.walk(h["body"]):
+            if H.kind(m) == "Match" and not m.get("src"):
+                for a in m["arms"]:
+                    if "Ann" in A.pat_shape(a["pat"]):
+                        ann_locals |= {b["local"] for b in H.pat_bindings(a["pat"])}
+        on_ann = [c for c in applied if any(H.kind(y) == "Path" and (y.get("res") or {}).get("local") in ann_locals for y in H.walk(c["args"][0]))]
+        n_apply = len(applied)
+        ctx.check(n_apply >= 2 and bool(on_ann), rule, "%s:annotated-variable" % short,
+                  "%s applies the printer's elision %d time(s) and not to the variable of an annotated payload: `(field = ((field) : T))` "
+                  "is punned only by the second run" % (short, n_apply), facts.bodies()[p]["loc"], detail={"applications": n_apply})
     # telescopes: the nested scope that may join the telescope is the body seen through the groups the printer elides
     for short in ("scoped_telescope", "existential_telescope"):
         p = FORMATTER + short
